@@ -144,6 +144,17 @@ def run(ctx):
             r = ctx.tlc("reassembler", "MC_ReassemblerView", cfg, workers=core.NCPU, timeout=3000, heap="16g")
             ctx.log("MC (view) %s: %d generated / %d distinct states" % (vc, r.generated, r.distinct))
 
+    # histories of any length: the inductive invariant of the abstract eventList (ReassemblerInd.tla)
+    ind = 0
+    if prop in ("C01", "C02", "C03", "C10") and (ctx.tier == "thorough" or prop == "C01"):
+        for args in (["--cinit=CInit", "--init=Init", "--inv=IndInv", "--length=0"],
+                     ["--cinit=CInit", "--init=IndInit", "--inv=IndInv", "--length=1"],
+                     ["--cinit=CInit", "--init=IndInit", "--inv=Safety", "--length=0"]):
+            core.apalache_check(ctx, "reassembler", "ReassemblerInd", args)
+            ind += 1
+        ctx.log("Apalache discharged the inductive invariant of the eventList for unbounded histories "
+                "(Init => IndInv, IndInv /\\ Next => IndInv', IndInv => Safety; offsets 0..5, maxInFlight 0..3)")
+
     lemma = False
     if prop in ("C02", "C03"):
         lemma = core.apalache_lemma(ctx)
@@ -237,6 +248,7 @@ def run(ctx):
         "model_configs": pl["dump"] + pl["deep"],
         "features_distinct_histories": feats,
         "seq_window_lemma_proved_by_apalache": lemma,
+        "eventlist_inductive_obligations_discharged_by_apalache": ind,
     }
     assumptions = [
         "sequence numbers of a history stay inside one 2^24 window (the property's quantifier); offsets are mapped to uint32 by the harness",
